@@ -101,6 +101,10 @@ type Client struct {
 	ctxCancel         context.CancelFunc
 	negotiatedVersion int
 
+	// startErr is the error of a Start that failed after the plugin process
+	// had been launched.
+	startErr error
+
 	// clientWaitGroup is used to manage the lifecycle of the plugin management
 	// goroutines.
 	clientWaitGroup sync.WaitGroup
@@ -588,6 +592,12 @@ func (c *Client) Start() (addr net.Addr, err error) {
 		return c.address, nil
 	}
 
+	// The plugin was already launched once and failed to start: it is never
+	// launched a second time, every later call reports the first error.
+	if c.startErr != nil {
+		return nil, c.startErr
+	}
+
 	// If one of cmd or reattach isn't set, then it is an error. We wrap
 	// this in a {} for scoping reasons, and hopeful that the escape
 	// analysis will pop the stack here.
@@ -747,6 +757,15 @@ func (c *Client) Start() (addr net.Addr, err error) {
 	if err != nil {
 		return nil, err
 	}
+
+	// From here on the plugin has been launched. Remember a failure so that
+	// later calls neither launch another process nor re-initialize the
+	// contexts and wait groups that this attempt's goroutines still use.
+	defer func() {
+		if err != nil {
+			c.startErr = err
+		}
+	}()
 
 	verifhook.Point("client.start.launched", 0)
 	// Make sure the command is properly cleaned up if there is an error
